@@ -7,11 +7,14 @@ From AV.C19 Require Import Model.
 Import ListNotations.
 Local Open Scope nat_scope.
 
-Record tc := mkTc { t_idx : nat; t_en : option Qc; t_iso : bool }.
+Record tc := mkTc { t_idx : nat; t_en : option Qc; t_iso : bool; t_en2 : option Qc }.
 
 Definition confs (ens : list (option Qc)) (isos : list bool) : list tc :=
-  map (fun i => mkTc i (nth i ens None) (nth i isos true)) (seq 0 (length ens)).
-Definition confs_n (n : nat) : list tc := map (fun i => mkTc i None true) (seq 0 n).
+  map (fun i => mkTc i (nth i ens None) (nth i isos true) (nth i ens None)) (seq 0 (length ens)).
+(* two-stage conformers: low-level energies ens, final (high-level) energies ens2, final graph bits isos *)
+Definition confs2 (ens ens2 : list (option Qc)) (isos : list bool) : list tc :=
+  map (fun i => mkTc i (nth i ens None) (nth i isos true) (nth i ens2 None)) (seq 0 (length ens)).
+Definition confs_n (n : nat) : list tc := map (fun i => mkTc i None true None) (seq 0 n).
 
 (* d i j = entry (i, j) of the implementation's pairwise heavy-atom RMSD matrix (oracle) *)
 Definition dmat (m : list (list Qc)) (a b : tc) : Qc := nth (t_idx b) (nth (t_idx a) m []) (Q2Qc 0).
@@ -53,9 +56,9 @@ Definition check_prune (ens : list (option Qc)) (m : list (list Qc)) (e_tol n_si
 
 (* find_lowest_energy_conformer: selected index / RuntimeError / exception, and the retained set *)
 Inductive esel := ESel (i : nat) | ENoSuitable | ERaised.
-Definition check_select (ens : list (option Qc)) (isos : list bool) (m : list (list Qc))
+Definition check_select (ens ens2 : list (option Qc)) (isos : list bool) (m : list (list Qc))
                         (e_tol n_sigma r_tol : Qc) (allow : bool) (s : esel) (e : expect) : bool :=
-  let '(s', r') := select tc t_en t_iso e_tol n_sigma (dmat m) r_tol allow (confs ens isos) in
+  let '(s', r') := select tc t_en t_en2 t_iso e_tol n_sigma (dmat m) r_tol allow (confs2 ens ens2 isos) in
   match s', s with
   | Selected _ c, ESel i => (t_idx c =? i) && res_matches r' e
   | NoSuitable _, ENoSuitable => res_matches r' e
